@@ -73,6 +73,21 @@ theorem SigExt.agree {m ρ ρ' ρ0} (h : SigExt m ρ ρ') :
     · rfl
     · exact ih (fun x hx => he x (by simp [hx]))
 
+theorem BoundOn.sigExt {bs : List Core.Binding} {m : Nat} {ρ ρ' : CEnv} (h : BoundOn bs ρ)
+    (he : SigExt m ρ ρ') : BoundOn bs ρ' := by
+  obtain ⟨ext, rfl, hx⟩ := he
+  clear hx
+  intro b hb
+  obtain ⟨V, hV⟩ := h b hb
+  induction ext with
+  | nil => exact ⟨V, hV⟩
+  | cons e r ih =>
+    obtain ⟨y, W⟩ := e
+    simp only [List.cons_append, lookup_cons]
+    split
+    · exact ⟨W, rfl⟩
+    · exact ih
+
 /-! ## focused producers -/
 
 def argsAllVar : Core.Args → Bool
@@ -158,11 +173,9 @@ theorem step_sigma {q : Core.Prog} {st : Core.State} {pc : Core.PC} {t : Core.Te
       fresh := st.fresh + 1 } := by
   simp only [Core.step, Core.sigmaStep, h]
 
-theorem isCodata_nil (ty : Core.Ty) : Core.isCodata [] ty = false := by
-  cases ty <;> simp [Core.isCodata]
-
 /-- a focused cut at a type that is not codata passes the producer value to the consumer value -/
-theorem step_cut_pass {q : Core.Prog} (hq : q.codataTypes = []) {cty : Core.Ty} {A c : Core.Term}
+theorem step_cut_pass {q : Core.Prog} {cty : Core.Ty} {A c : Core.Term}
+    (hnc : Core.isCodata q.codataTypes cty = false)
     {ρ : CEnv} {out : Out} {n : Nat} {V cv : CVal}
     (hA : isFocusedVal A = true) (hc : Inert c)
     (hV : Core.prdVal ρ A = .ok V) (hcv : Core.cnsVal ρ c = .ok cv) :
@@ -170,13 +183,31 @@ theorem step_cut_pass {q : Core.Prog} (hq : q.codataTypes = []) {cty : Core.Ty} 
       Core.State.pass ⟨.cut cty A c, ρ, out, n⟩ V cv := by
   have hs : Core.sigmaStep (Core.sigmaName n) (.cut cty A c) = none := by
     simp only [Core.sigmaStep, split_cut_focused hA hc]
-  simp only [Core.step, hs, hq, isCodata_nil, Core.stepCut]
+  simp only [Core.step, hs, hnc, Core.stepCut]
   cases A with
   | mu pc v ty s => simp [isFocusedVal] at hA
   | _ => simp only [hV, hcv, Bool.false_eq_true, if_false]
 
+/-- a focused cut whose consumer is a `μ~`: the variable is bound to the value of the producer,
+whatever the type of the cut (producer first and consumer first coincide) -/
+theorem step_cut_bind {q : Core.Prog} {cty ty : Core.Ty} {A : Core.Term} {x : Core.Ident}
+    {s : Core.Stmt} {ρ : CEnv} {out : Out} {n : Nat} {V : CVal}
+    (hA : isFocusedVal A = true) (hV : Core.prdVal ρ A = .ok V) :
+    Core.step q ⟨.cut cty A (.mu .cns x ty s), ρ, out, n⟩ = .next ⟨s, (x, V) :: ρ, out, n⟩ := by
+  have hs : Core.sigmaStep (Core.sigmaName n) (.cut cty A (.mu .cns x ty s)) = none := by
+    simp only [Core.sigmaStep, split_cut_focused hA (c := .mu .cns x ty s) trivial]
+  simp only [Core.step, hs, Core.stepCut]
+  cases hcd : Core.isCodata q.codataTypes cty with
+  | true =>
+    simp only [if_true, Core.cnsVal, hV, Core.State.goto]
+  | false =>
+    cases A with
+    | mu pc v ty s => simp [isFocusedVal] at hA
+    | _ => simp only [hV, Core.cnsVal, Bool.false_eq_true, if_false, Core.State.pass, Core.State.goto]
+
 /-- a cut whose producer is a `μ`, at a type that is not codata: bind the covariable -/
-theorem step_cut_mu {q : Core.Prog} (hq : q.codataTypes = []) {cty ty : Core.Ty} {a : Core.Ident}
+theorem step_cut_mu {q : Core.Prog} {cty ty : Core.Ty} (hnc : Core.isCodata q.codataTypes cty = false)
+    {a : Core.Ident}
     {s : Core.Stmt} {c : Core.Term} {ρ : CEnv} {out : Out} {n : Nat} {cv : CVal}
     (hc : Inert c) (hcv : Core.cnsVal ρ c = .ok cv) (pc : Core.PC) :
     Core.step q ⟨.cut cty (.mu pc a ty s) c, ρ, out, n⟩ = .next ⟨s, (a, cv) :: ρ, out, n⟩ := by
@@ -184,7 +215,7 @@ theorem step_cut_mu {q : Core.Prog} (hq : q.codataTypes = []) {cty ty : Core.Ty}
     cases c with
     | xtor _ _ _ _ => exact False.elim hc
     | _ => rfl
-  simp only [Core.step, hs, hq, isCodata_nil, Core.stepCut, hcv, Bool.false_eq_true, if_false,
+  simp only [Core.step, hs, hnc, Core.stepCut, hcv, Bool.false_eq_true, if_false,
     Core.State.goto]
 
 /-! ## the operand lemma -/
@@ -200,7 +231,7 @@ theorem mu_inert (x ty s) : Inert (.mu .cns x ty s) := trivial
 
 /-- an operand in leftmost non-variable position: if it is a variable nothing happens, otherwise it
 is lifted (ς), evaluated, and bound to the machine-fresh variable that replaces it -/
-theorem core_operand {q : Core.Prog} (hq : q.codataTypes = []) {A : Core.Term} {ρ : CEnv} {n : Nat}
+theorem core_operand {q : Core.Prog} {A : Core.Term} {ρ : CEnv} {n : Nat}
     {Φ : CVal → Prop} (Sx : Core.Term → Core.Stmt) (out : Out)
     (hvar : ∀ pc z ty, A = .var pc z ty → pc = .prd ∧ (z.name = sig → z.id < n) ∧
       ∃ V, Core.Env.lookup ρ z = .ok V ∧ Φ V)
@@ -221,9 +252,8 @@ theorem core_operand {q : Core.Prog} (hq : q.codataTypes = []) {A : Core.Term} {
     obtain ⟨i, ρ1, n1, A', V, hc, hn1, hext, hfoc, hval, hΦ⟩ :=
       hev (.mu .cns (Core.sigmaName n) A.ty (Sx (.var .prd (Core.sigmaName n) A.ty))) A.ty out
         (mu_inert _ _ _)
-    have s2 := step_cut_pass (q := q) hq (cty := A.ty) (out := out) (n := n1) hfoc
-      (mu_inert (Core.sigmaName n) A.ty (Sx (.var .prd (Core.sigmaName n) A.ty))) hval rfl
-    simp only [Core.State.pass, Core.State.goto] at s2
+    have s2 := step_cut_bind (q := q) (cty := A.ty) (ty := A.ty) (x := Core.sigmaName n)
+      (s := Sx (.var .prd (Core.sigmaName n) A.ty)) (out := out) (n := n1) hfoc hval
     refine ⟨1 + i + 1, (Core.sigmaName n, V) :: ρ1, n1, Core.sigmaName n, A.ty, V,
       ((CSteps.one s1).trans hc).trans (.one s2), by omega, ?_, lookup_cons_self _ _ _, hΦ, ?_⟩
     · exact (hext.mono (Nat.le_succ n)).cons (Nat.le_refl n)
